@@ -117,7 +117,7 @@ func looksGzip(b []byte) bool { return len(b) > 2 && b[0] == 0x1f && b[1] == 0x8
 
 func main() {
 	r := report.New("exploration")
-	maxLen := r.Pick(4, 6)
+	maxLen := r.Pick(4, 5)
 
 	r.Rule(fmt.Sprintf("every string of length 0..%d over %q as value and as key in 5 shapes, through util.WriteJSON with gzip accepted (threshold 1) and refused; distinct = (shape,string,gzip) whose string holds a backslash, quote or whitespace", maxLen, alphabet))
 	r.Assume("encoding/json is the reference for what the handler's value is", "PostgreSQL/real network path not involved: httptest recorder")
